@@ -203,7 +203,7 @@ trace_cb(unsigned seq, int kind, void *aio, const unsigned char *f, int result, 
 	for (int i = 0; i < NAIO; i++)
 		if (aios[i] == aio) k = i;
 	if (k < 0) return; // an aio of the library itself
-	printf("T %u %d %d %d%d%d%d%d%d%d%d %d %d\n", seq, kind, k, f[0], f[1], f[2], f[3], f[4], f[5], f[6], f[7], result, arg);
+	printf("T %u %d %d %d%d%d%d%d%d%d%d%d %d %d\n", seq, kind, k, f[0], f[1], f[2], f[3], f[4], f[5], f[6], f[7], f[8], result, arg);
 }
 
 static void
